@@ -454,7 +454,8 @@ def run(ck):
     ck.trusted += [
         "C10: model/ChLex.v is a transcription of the ClickHouse lexer (Lexer.cpp) and literal decoder (ReadHelpers.cpp) from the ClickHouse sources/documentation; heredocs and Unicode quotes outside literals are not modelled",
         "C10: LIKE pattern meaning (model/Like.v like_parse) follows ClickHouse likePatternToRegexp",
-        "C10: the syntactic provenance rules of translate/sqlsites_src (reviewed selector table, sink constructors, two excluded functions) decide the class of each formatted argument; everything outside them is KUnclassified",
+        "C10: the provenance rules of translate/sqlsites_src (reviewed selector table, sink constructors, two excluded functions; go/types for numeric verbs) decide the class of each formatted argument; everything outside them is KUnclassified",
+        "C10: the renderer theorems are about model/SqlRender.v and model/LogqlPlan.v, whose byte-exact tie to reader/utils/sql_select and clickhouse_planner is checked by C07/C08 (and re-checked here on the hostile requests: flat(pieces) = real SQL)",
         "C10: strings.NewReplacer with one-byte search strings is a single-pass per-byte map; strings.Replace(s, old, new, -1) is leftmost non-overlapping replacement",
     ]
     known = ck.known_findings()
